@@ -321,6 +321,8 @@ func (m *Machine) stub(fn *ssa.Function, args []Val) (r Val, ok bool) {
 		}
 	}()
 	switch name {
+	case "errors.Is":
+		return m.errorsIs(args[0].(Iface), args[1].(Iface)), true
 	case "bytes.IndexByte", "strings.IndexByte":
 		return m.indexByte(args[0], args[1].(*Term)), true
 	case "math/bits.TrailingZeros64", "math/bits.TrailingZeros32", "math/bits.TrailingZeros":
@@ -607,6 +609,9 @@ func (m *Machine) intrinsic(name string, fn *ssa.Function, args []Val) (Val, boo
 		return Const(64, uint64(a.p.off-b.p.off)), true
 	case "vfAllocLimit":
 		m.allocLim = m.concInt(args[0].(*Term), "alloc limit")
+		return nil, true
+	case "vfAllocExplore":
+		m.allocExplore = m.concInt(args[0].(*Term), "alloc explore bound")
 		return nil, true
 	case "vfAllocMax":
 		return Const(64, uint64(m.maxAlloc)), true
@@ -959,4 +964,39 @@ func (m *Machine) mapIterAdvance(it Ptr, st *mapIterState) {
 	}
 	m.storePtrVal(Ptr{it.obj, it.off}, Ptr{m.entryKeyObj(st.mo, st.i), 0})
 	m.storePtrVal(Ptr{it.obj, it.off + 8}, Ptr{st.mo.entries[st.i].vobj, 0})
+}
+
+// errorsIs follows errors.Is: identity comparison along the Unwrap chain (Is methods and multi-error trees are not
+// used by the code under test and end the path as unsupported).
+func (m *Machine) errorsIs(err, target Iface) Val {
+	errT := types.Universe.Lookup("error").Type()
+	for i := 0; i < 32; i++ {
+		if err.t == nil {
+			return Bool(target.t == nil)
+		}
+		if target.t != nil && types.Identical(err.t, target.t) && types.Comparable(err.t) {
+			if eq := m.valEq(err.t, err.v, target.v); m.branch(eq) {
+				return Bool(true)
+			}
+		}
+		ms := m.prog.MethodSets.MethodSet(err.t)
+		if ms.Lookup(nil, "Is") != nil {
+			endPath("UNSUPPORTED", "errors.Is on a type with an Is method (%s)", err.t)
+		}
+		sel := ms.Lookup(nil, "Unwrap")
+		if sel == nil {
+			return Bool(false)
+		}
+		f := m.prog.MethodValue(sel)
+		if f == nil {
+			return Bool(false)
+		}
+		if res := f.Signature.Results(); res.Len() != 1 || !types.Identical(res.At(0).Type(), errT) {
+			endPath("UNSUPPORTED", "errors.Is: Unwrap of %s does not return error", err.t)
+		}
+		next, _ := m.call(f, []Val{err.v}, nil).(Iface)
+		err = next
+	}
+	endPath("BUDGET", "errors.Is: unwrap chain longer than 32")
+	return nil
 }
